@@ -45,8 +45,10 @@ def classify(problems, feats, nroots):
     return None
 
 
-def run_one(R, level, roots, db, api, bulk, policy, pseed, label):
-    outcome, ys, w = wc.run_walk(level, db, roots, api, bulk=bulk, policy=policy, policy_seed=pseed)
+def run_one(R, level, roots, db, api, bulk, policy, pseed, label, w=None):
+    outcome, ys, w = wc.run_walk(level, db, roots, api, bulk=bulk, policy=policy, policy_seed=pseed, w=w)
+    if label == "reuse":
+        R.mon["bulkwalks_on_a_reused_client"] += 1
     feats = wc.wire_features(w.agent)
     truth = gen.truth_below(db, roots)
     case = {
@@ -120,6 +122,15 @@ def run(R):
                     R, level, order, db, ys,
                     {"level": level, "roots": [list(r) for r in order], "db": wc.enc_db(db), "bulk": bulk, "policy": policy, "policy_seed": i * 31 + j, "api": api},
                 )
+        if i % 5 == 3:
+            import random as _random
+
+            from .. import agent as _agent
+
+            lv = rig.LEVEL_CYCLE_V2[i % len(rig.LEVEL_CYCLE_V2)]
+            w = rig.World(lv, db, agent_kwargs={"bulk_policy": _agent.BulkPolicy("fewer", _random.Random(i))})
+            for api, order, bulk in (("bulkwalk", orders[0], 3), ("bulkwalk", orders[0], 3), ("bulkwalk", orders[-1], 10), ("pybulkwalk", orders[0], 2), ("bulkwalk", orders[0], 1)):
+                run_one(R, lv, order, db, api, bulk, "fewer", i, "reuse", w=w)
         if len(roots) > 1 and i % 4 == 0:
             # the labelled class: partial FIRST row
             run_one(R, "v2c", roots, db, "bulkwalk", BULKS[i % len(BULKS)], "partial_first", i, "partial-first")
